@@ -26,7 +26,9 @@ def bounds(tier):
 
 def grammar_for(schema_name):
     sc = schemas.FAMILY[schema_name]
-    atoms = schemas.atoms_for(sc, aliases=('A',), depth=3)
+    # the aliased message comes from another topic with its own message type
+    atoms = schemas.atoms_for(sc, aliases={'A': schemas.renamed(sc)}, depth=3)
+    atoms = {k: _interleave(v) for k, v in atoms.items()}
     atoms['N'] = atoms['N'][:8] + [num(0), num(1)]
     atoms['B'] = atoms['B'][:6] + [TRUE]
     atoms['S'] = atoms['S'][:3] + [('lit', '"a"', '"a"')]
@@ -41,6 +43,25 @@ def grammar_for(schema_name):
         set_widths=(1, 2), range_flags=((False, False), (True, False)),
         inclusion=tuple(d for d in doms if d != 'AB'), index=bool(atoms['A']), eq_sorts=('N', 'B', 'S'),
     )
+
+
+def _interleave(nodes):
+    """Alternate message-rooted and alias-rooted atoms so that truncation keeps both."""
+    own = [n for n in nodes if not _alias_rooted(n)]
+    ali = [n for n in nodes if _alias_rooted(n)]
+    out = []
+    for i in range(max(len(own), len(ali))):
+        if i < len(own):
+            out.append(own[i])
+        if i < len(ali):
+            out.append(ali[i])
+    return out
+
+
+def _alias_rooted(n):
+    while n[0] in ('field', 'index'):
+        n = n[1]
+    return n[0] == 'var'
 
 
 def plan(tier):
@@ -62,6 +83,7 @@ def wrappers(t):
         return [
             ('after s as A: no t { %s }' % text, {'this': 't', 'A': 's'}),
             ('globally: s as A causes t { %s }' % text, {'this': 't', 'A': 's'}),
+            ('globally: (u or s as A) forbids t { %s }' % text, {'this': 't', 'A': 's'}),
             ('globally: t { %s } requires s as A' % text, None),  # trigger cannot see the behaviour alias... (requires: behaviour binds first)
             ('after s as A until t { %s }: no u' % text, {'this': 't', 'A': 's'}),
         ]
@@ -76,8 +98,9 @@ def check_term(t, sname, r=None):
     problems = []
     sc = schemas.FAMILY[sname]
     tok = schemas.to_token(sc, 'M')
+    atok = schemas.to_token(schemas.renamed(sc), 'MA')
     other = schemas.to_token(schemas.FAMILY['flat'], 'O')
-    msg_types = {'t': tok, 's': tok, 'u': other, 'w': other}
+    msg_types = {'t': tok, 's': atok, 'u': other, 'w': other}
     for text, roots in wrappers(t):
         if roots is None:
             continue
@@ -89,7 +112,7 @@ def check_term(t, sname, r=None):
             continue
         # inferred type of every reference contains the declared type
         lp = absyn.lift(prop, typed=True)
-        root_types = {'this': sc, 'A': sc}
+        root_types = {'this': sc, 'A': schemas.renamed(sc)}
         for ev in _events(lp):
             pred = ev[3]
             if pred[0] != 'pred':
